@@ -19,7 +19,7 @@ NOTES = {
     "C19-m2": "caught after script location `inputref` (script carried by a spent input's output) was added",
     "C13-m3": "caught after `aiken fmt` in place (format_files) was added to the check",
     "C13-m2": "caught after comments inside multi-line record constructors were generated",
-    "C02-m5": "NOT CAUGHT: needs two BLS12-381 point constants that are negations of each other in one program; no generator produces BLS constants (declared gap)",
+    "C02-m5": "round 2; missed while no generator produced BLS12-381 constants; caught by the `points` family (the generator of G1 / G2, its negation and the point at infinity several times in one program; `VPoint` in Aiken.tla)",
     "C01-m4": "round 2; missed by the first generics family (the type variable itself must be a list in one use and a pair-list in another); caught after those instantiations were added",
     "C06-m4": "round 2; missed until typing rules across modules were checked on multi-module projects",
     "C06-m5": "round 2; caught once the String type existed in the generator (added while this round was running)",
